@@ -235,3 +235,22 @@ Proof.
   induction l as [|x l [IH1 IH2]]; cbn [bytewise map concat]; split; try constructor; try discriminate; try assumption.
   cbn [app]. f_equal. exact IH2.
 Qed.
+
+(* without any well-formedness: a successful read_exact splits the stream *)
+Lemma read_exact_concat cs : forall n b r, read_exact n cs = Some (b, r) -> concat cs = b ++ concat r.
+Proof.
+  induction cs as [|c cs IH]; intros n b r; cbn [read_exact]; destruct (n =? 0) eqn:E0.
+  - now intros [= <- <-].
+  - discriminate.
+  - now intros [= <- <-].
+  - destruct (blen c =? 0); [discriminate|].
+    destruct (n <? blen c).
+    + intros [= <- <-]. cbn [concat]. now rewrite app_assoc, firstn_skipn.
+    + destruct (read_exact (n - blen c) cs) as [[b' r']|] eqn:E; [|discriminate].
+      intros [= <- <-]. cbn [concat]. rewrite (IH _ _ _ E). now rewrite app_assoc.
+Qed.
+
+Lemma read_exact_total cs n b r : read_exact n cs = Some (b, r) -> total_len cs = n + total_len r.
+Proof.
+  intro H. unfold total_len. rewrite (read_exact_concat _ _ _ _ H), blen_app, (read_exact_len _ _ _ _ H). reflexivity.
+Qed.
